@@ -48,6 +48,32 @@ func parseXID(s string) (id XID, hasSeq, ok bool) {
 	return id, false, true
 }
 
+// lenientID reports id texts that strict parsers reject but strconv-style parsers accept ("+5", "5-+1").
+func lenientID(s string) bool {
+	s = strings.TrimPrefix(s, "(")
+	if s == "-" || s == "+" || s == "*" {
+		return false
+	}
+	if _, _, ok := parseXID(s); ok {
+		return false
+	}
+	if strings.HasSuffix(s, "-*") {
+		if _, ok := parseU64(strings.TrimSuffix(s, "-*")); ok {
+			return false
+		}
+	}
+	parts := strings.SplitN(s, "-", 2)
+	for _, p := range parts {
+		if p == "*" {
+			continue
+		}
+		if _, err := strconv.ParseInt(p, 10, 64); err != nil {
+			return false
+		}
+	}
+	return true
+}
+
 func parseXIDText(g respc.Value, lenient bool) (XID, bool) {
 	t, ok := text(g, lenient)
 	if !ok {
@@ -137,6 +163,9 @@ func hXAdd(db *DB, a [][]byte, tm Time) ([]alt, string) {
 	if len(fields) == 0 || len(fields)%2 != 0 {
 		return errAlt("wrong number of field arguments"), ""
 	}
+	if lenientID(idArg) {
+		return nil, "id syntax accepted by some parsers only"
+	}
 	// id form
 	mode := "explicit"
 	var want XID
@@ -156,6 +185,9 @@ func hXAdd(db *DB, a [][]byte, tm Time) ([]alt, string) {
 			return errAlt("invalid stream id"), ""
 		}
 		want = id
+	}
+	if want.Ms > math.MaxInt64 || want.Seq > math.MaxInt64 || minid.Ms > math.MaxInt64 || minid.Seq > math.MaxInt64 {
+		return nil, "id component above 2^63-1 (implementations with signed ids)"
 	}
 	v, wrong, amb := db.getTyped(key, "stream", tm)
 	if amb {
@@ -280,6 +312,9 @@ func parseBound(s string, isStart bool) (id XID, excl, ok bool) {
 	if !ok {
 		return id, excl, false
 	}
+	if id.Ms > math.MaxInt64 || id.Seq > math.MaxInt64 {
+		return id, excl, false
+	}
 	if !hasSeq && !isStart {
 		id.Seq = math.MaxUint64
 	}
@@ -304,16 +339,25 @@ func hXRange(db *DB, a [][]byte, tm Time) ([]alt, string) {
 		}
 		count = n
 	}
+	if lenientID(string(a[2])) || lenientID(string(a[3])) {
+		return nil, "id syntax accepted by some parsers only"
+	}
 	start, sx, ok1 := parseBound(string(a[2]), true)
 	end, ex, ok2 := parseBound(string(a[3]), false)
 	if !ok1 || !ok2 {
 		return errAlt("invalid stream id"), ""
 	}
+	// '+' as start or '-' as end are accepted by the reference implementation (the
+	// range is then empty) but not part of the documented syntax; exclusive bounds may be unsupported
+	odd := sx || ex || strings.TrimPrefix(string(a[2]), "(") == "+" || strings.TrimPrefix(string(a[3]), "(") == "-"
 	v, wrong, amb := db.getTyped(string(a[1]), "stream", tm)
 	if amb {
 		return nil, ambiguous
 	}
 	if wrong {
+		if odd {
+			return errAlt("WRONGTYPE or unsupported bound"), ""
+		}
 		return wrongTypeAlt(), ""
 	}
 	var sel []XEntry
@@ -351,8 +395,8 @@ func hXRange(db *DB, a [][]byte, tm Time) ([]alt, string) {
 		return true
 	}
 	alts := []alt{{desc: "array of " + strconv.Itoa(len(sel)) + " entries [id, [field value ...]]", match: m, apply: noop}}
-	if sx || ex {
-		alts = append(alts, alt{desc: "error (exclusive bounds unsupported)", match: mErr(), apply: noop})
+	if odd {
+		alts = append(alts, alt{desc: "error (bound form unsupported)", match: mErr(), apply: noop})
 	}
 	return alts, ""
 }
